@@ -62,7 +62,9 @@ fn main() {
         "C08" => engine::run(&props::c08::C08, &opts),
         "C09" => engine::run(&props::c09::C09, &opts),
         "C10" => engine::run(&props::c10::C10, &opts),
+        "C11" => engine::run(&props::c11::C11, &opts),
         "C12" => engine::run(&props::c12::C12, &opts),
+        "C15" => engine::run(&props::c15::C15, &opts),
         _ => {
             eprintln!("unknown property {}", id);
             2
